@@ -301,6 +301,7 @@ func retypeOnPath(r *Rng, m map[string]interface{}, path string) (map[string]int
 func init() {
 	register(&Prop{
 		ID:        "C11",
+		Ambient:   ambientQueryOpts,
 		Rule:      "Maps without empty lists (depth <= 5); paths derived by descending nested maps (existing 90%, missing, ending at scalars, maps or lists; one segment or many), 6% general derived paths (through lists, wildcards); new names drawn from the key alphabet (so often an existing sibling) or fresh; non-trivial = the operation succeeded; distinct = distinct op lines",
 		Gen:       c11Gen,
 		Exec:      c11Exec,
